@@ -385,7 +385,7 @@ pub struct NativeRef { pub p: usize }      // ObjRef<Native>
 pub enum Dispatched { Closure(ClosureRef, u8), Method(MethodRef, u8), Native(NativeRef, u8), Class(ClassRef, u8) }
 
 // ---- the interpreter (projection of laythe_vm::vm::Vm to what the covered handlers touch) ------------------------
-pub struct Errors { pub runtime: ClassRef, pub type_: ClassRef, pub value: ClassRef, pub property: ClassRef, pub error: ClassRef }
+pub struct Errors { pub runtime: ClassRef, pub type_: ClassRef, pub value: ClassRef, pub property: ClassRef, pub error: ClassRef, pub import: ClassRef, pub export: ClassRef }
 pub struct BuiltIn { pub errors: Errors }
 
 pub struct Vm {
@@ -411,7 +411,12 @@ pub struct Vm {
   pub capture_stub: CapturesRef,
   /// ghost (ncall unit): natives whose body ran during this handler, with the arguments they saw
   pub ran: Ghost<Seq<(NativeRef, Seq<Value>)>>,
+  /// ghost (imports unit): the module cache, fully resolved path -> module identity; functions handed to new fibers by this handler
+  pub module_cache: Ghost<Map<LyStr, usize>>,
+  pub spawned: Ghost<Seq<FunRef>>,
 }
+/// the ghost components only some units look at are untouched
+pub open spec fn aux_same(o: &Vm, n: &Vm) -> bool { n.ran == o.ran && n.module_cache == o.module_cache && n.spawned == o.spawned }
 
 pub uninterp spec fn code_u8(ip: int) -> u8;
 pub uninterp spec fn code_u16(ip: int) -> u16;
@@ -421,19 +426,19 @@ pub uninterp spec fn string_constant(index: u16) -> LyStr;
 impl Vm {
   #[verifier::external_body]
   pub fn read_byte(&mut self) -> (r: u8)
-    ensures r == code_u8(old(self).ip@), final(self).ip@ == old(self).ip@ + 1,
+    ensures aux_same(old(self), final(self)), r == code_u8(old(self).ip@), final(self).ip@ == old(self).ip@ + 1,
             final(self).fiber == old(self).fiber, final(self).raised == old(self).raised, final(self).constants == old(self).constants, final(self).builtin == old(self).builtin, final(self).queued == old(self).queued, final(self).cache == old(self).cache, final(self).heap == old(self).heap, final(self).called == old(self).called, final(self).call_log == old(self).call_log, final(self).capture_stub == old(self).capture_stub
   { 0 }
 
   #[verifier::external_body]
   pub fn read_short(&mut self) -> (r: u16)
-    ensures r == code_u16(old(self).ip@), final(self).ip@ == old(self).ip@ + 2,
+    ensures aux_same(old(self), final(self)), r == code_u16(old(self).ip@), final(self).ip@ == old(self).ip@ + 2,
             final(self).fiber == old(self).fiber, final(self).raised == old(self).raised, final(self).constants == old(self).constants, final(self).builtin == old(self).builtin, final(self).queued == old(self).queued, final(self).cache == old(self).cache, final(self).heap == old(self).heap, final(self).called == old(self).called, final(self).call_log == old(self).call_log, final(self).capture_stub == old(self).capture_stub
   { 0 }
 
   #[verifier::external_body]
   pub fn update_ip(&mut self, offset: isize)
-    ensures final(self).ip@ == old(self).ip@ + offset,
+    ensures aux_same(old(self), final(self)), final(self).ip@ == old(self).ip@ + offset,
             final(self).fiber == old(self).fiber, final(self).raised == old(self).raised, final(self).constants == old(self).constants, final(self).builtin == old(self).builtin, final(self).queued == old(self).queued, final(self).cache == old(self).cache, final(self).heap == old(self).heap, final(self).called == old(self).called, final(self).call_log == old(self).call_log, final(self).capture_stub == old(self).capture_stub
   { }
 
@@ -447,7 +452,7 @@ impl Vm {
   /// raise a runtime error of the given class: the handler produces no value; the fiber is handed to the unwinder
   #[verifier::external_body]
   pub fn runtime_error_from_str(&mut self, error: ClassRef, message: &str) -> (r: ExecutionSignal)
-    ensures r == ExecutionSignal::RuntimeError, final(self).raised@ == Some(error), final(self).ip == old(self).ip,
+    ensures aux_same(old(self), final(self)), final(self).fiber.stack == old(self).fiber.stack, r == ExecutionSignal::RuntimeError, final(self).raised@ == Some(error), final(self).ip == old(self).ip,
             final(self).fiber.used == old(self).fiber.used, final(self).fiber.pool == old(self).fiber.pool,
             final(self).fiber.handlers == old(self).fiber.handlers, final(self).fiber.error_in_handler == old(self).fiber.error_in_handler,
             final(self).cache == old(self).cache, final(self).heap == old(self).heap, final(self).called == old(self).called, final(self).call_log == old(self).call_log, final(self).capture_stub == old(self).capture_stub, final(self).fiber.frames == old(self).fiber.frames,
